@@ -24,7 +24,8 @@ def worker(ck: Check, job):
         reps, classes = stream_alphabet(ck, code, True)
         reps = [r for r in reps if H._wordlike(r)] + [x for x in EXTRA.get(code, []) if x not in reps]
         if code == 'en' and quick:
-            reps = [r for r in reps if r in EN_SMALL]      # the annotator forks on every neighbour of 'o'
+            # the annotator forks on every neighbour of 'o': the 'o' rule is C18's subject, the quick tier leaves it out here
+            reps = [r for r in reps if r in EN_SMALL and r != 'o']
     # the separator words must be ordinary words of the language
     exq = new_executor()
     lang = H.lang_value(exq, L.type_name)
@@ -112,7 +113,7 @@ def run(ck: Check):
         langs = [c for c in langs if c in only.split(',')]
     jobs = [(c, 10.0) for c in langs] + [(c, 0.0) for c in langs if ck.tier != 'quick' or c in ('fr', 'en')]
     run_parallel(ck, worker, jobs)
-    ck.outside += ['parts A, B longer than 2 words (3 for French, 3 in the thorough tier)', 'separators other than " lorem ipsum dolor. "',
+    ck.outside += ['parts A, B longer than 2 words (3 for French, 3 in the thorough tier)', "quick: English texts containing the word 'o' (C18) and English words beyond one per role", 'separators other than " lorem ipsum dolor. "',
                    'French: alphabet reduced to the trigger words of the ambiguity rule and a few number words']
     ck.assumptions.append('the tokenizer cuts the texts at the part boundaries (C02)')
     return ('Texts A, B of solver-chosen words and the text "A lorem ipsum dolor. B" are pushed through '
